@@ -139,6 +139,11 @@ func genNoise(r *core.Rand, tier string) *Live {
 		s.Stream = b
 	}
 	s.Chunks, s.Deltas = genChunks(r, len(s.Stream))
+	// the public Reset method: afterwards the decoder is as good as new. Pure noise streams
+	// only (a reset in the middle of the well-formed suffix would change what is expected).
+	if s.Level == "reader" && len(s.Sent) == 0 && len(s.Chunks) > 1 && r.Chance(1, 5) {
+		s.Resets = []int{1 + r.Intn(len(s.Chunks)-1)}
+	}
 	return s
 }
 
@@ -147,6 +152,7 @@ func (s *Live) runC06(env *core.Env, st *core.Stats) (vs []core.Violation) {
 	s.liveEvidence(st)
 	if st != nil {
 		st.Fault("noise:" + s.Noise)
+		st.ProbeIf(len(s.Resets) > 0, "Reader.Reset-in-mid-stream")
 	}
 	modOpts := s.Opts
 	mod := s.model(modOpts, st)
@@ -253,6 +259,11 @@ func genC14(r *core.Rand, tier string) *Live {
 	s.Stream, s.Sent = genWellFormed(r, s.Opts, n, true)
 	// make sure the filtered classes occur: sprinkle extra FE / F8 between messages
 	s.Chunks, s.Deltas = genChunks(r, len(s.Stream))
+	// an earlier listener with other options on the same port must not matter
+	if r.Chance(1, 4) {
+		s.Pre = &LiveOpts{ActiveSense: r.Bool(), TimeCode: r.Bool(), SysEx: r.Bool(), BufSize: s.Opts.BufSize}
+		s.PreStopped = r.Chance(1, 2)
+	}
 	return s
 }
 
@@ -262,6 +273,13 @@ func (s *Live) runC14(env *core.Env, st *core.Stats) (vs []core.Violation) {
 	all.ActiveSense, all.TimeCode, all.SysEx = true, true, true
 	base := s.observe(env, all)
 	st.Eval(1)
+	if s.Pre != nil {
+		if s.PreStopped {
+			st.Probe("earlier-listener-with-other-options-(stopped)")
+		} else {
+			st.Probe("earlier-listener-with-other-options-(not-stopped)")
+		}
+	}
 	if base.panicked {
 		return []core.Violation{core.V("panic", panicKey(base.panicMsg), "decoder panicked with all options on: %s", base.panicMsg)}
 	}
